@@ -334,10 +334,11 @@ def header_src(f, t, style, out):
 
 def field_ann(f):
     style, t = f['style'], f['tree']
+    extra = ', json_key(%r)' % f['path'][0] if f.get('feat') == 'json_key' else ''
     if style == 'ann':
-        return 'Annotated[%s, %s]' % (tree_src(f, t, 'ann'), pat_expr(f))
+        return 'Annotated[%s, %s%s]' % (tree_src(f, t, 'ann'), pat_expr(f), extra)
     if style == 'shared':
-        return 'Annotated[%s, %s]' % (tree_src(f, t, 'shared'), f['pvar'])
+        return 'Annotated[%s, %s%s]' % (tree_src(f, t, 'shared'), f['pvar'], extra)
     if style == 'dc':
         return tree_src(f, t, 'plain')
     return tree_src(f, t, style)
@@ -435,6 +436,46 @@ def gen_patterns(r, f, kinds):
     f['patterns'], f['infos'], f['overlap'] = pats, infos, overlap
 
 
+def gen_feature(r, f):
+    """the other declaration features a patterned field can be combined with: how its default and its JSON key / path
+    are declared"""
+    i = f['id']
+    if f['engine'] == 'v0':
+        feats = ['plain', 'plain', 'plain', 'json_field', 'json_field_all', 'metadata', 'factory', 'path', 'skip_if']
+        if f['style'] in ('ann', 'shared'):
+            feats += ['json_key', 'json_key']
+    else:
+        feats = ['plain', 'plain', 'plain', 'alias', 'alias_load', 'aliaspath', 'metadata', 'factory']
+    feat = r.choice(feats)
+    key = 'Key%d' % i
+    f['feat'], f['path'] = feat, ['f%d' % i]
+    f['rhs'] = 'None'
+    if feat == 'json_field':
+        f['rhs'], f['path'] = 'json_field(%r, default=None)' % key, [key]
+    elif feat == 'json_field_all':
+        f['rhs'], f['path'] = 'json_field(%r, all=True, default=None)' % key, [key]
+    elif feat == 'metadata':
+        f['rhs'] = "field(default=None, metadata={'unit': 'd', 'doc': 'patterned'})"
+    elif feat == 'factory':
+        f['rhs'] = 'field(default_factory=lambda: None)'
+    elif feat == 'path':
+        f['rhs'], f['path'] = "path_field('outer%d.inner', default=None)" % i, ['outer%d' % i, 'inner']
+        # the default engine feeds the default of an ABSENT path field through the field's parser (also unpatterned):
+        # a None default needs an Optional annotation
+        if f['tree'][0] != 'opt':
+            f['tree'] = ['opt', f['tree']]
+    elif feat == 'skip_if':
+        f['rhs'] = 'skip_if_field(SkipIfNone, default=None)'
+    elif feat == 'json_key':
+        f['path'] = [key]
+    elif feat == 'alias':
+        f['rhs'], f['path'] = 'Alias(%r, default=None)' % key, [key]
+    elif feat == 'alias_load':
+        f['rhs'], f['path'] = 'Alias(load=%r, default=None)' % key, [key]
+    elif feat == 'aliaspath':
+        f['rhs'], f['path'] = "AliasPath('outer%d.inner', default=None)" % i, ['outer%d' % i, 'inner']
+
+
 def gen_field(r, engine, fid, shared=None):
     f = {'engine': engine, 'id': fid, 'tz': None}
     if shared is not None:
@@ -460,6 +501,7 @@ def gen_field(r, engine, fid, shared=None):
         f['tree'] = gen_tree(r, f, style, kinds, 0, counter)
     if shared is None:
         gen_patterns(r, f, [l[1] for l in leaves_of(f['tree'])])
+    gen_feature(r, f)
     f['ann'] = field_ann(f)
     hdr = []
     header_src(f, f['tree'], 'plain' if style == 'dc' else style, hdr)
@@ -1063,16 +1105,18 @@ def gen_groups(ctx):
 
 def payload(groups):
     return {'groups': [{'engine': g['engine'], 'header': g['header'],
-                        'fields': [{'ann': f['ann'], 'inputs': [it['inp'] for it in f['items']]} for f in g['fields']]}
+                        'fields': [{'ann': f['ann'], 'rhs': f['rhs'], 'path': f['path'], 'inputs': [it['inp'] for it in f['items']]}
+                                   for f in g['fields']]}
                        for g in groups]}
 
 
-FKEYS = ('engine', 'id', 'tz', 'patterns', 'infos', 'overlap', 'style', 'tree', 'ann', 'pvar')
+FKEYS = ('engine', 'id', 'tz', 'patterns', 'infos', 'overlap', 'style', 'tree', 'ann', 'pvar', 'feat', 'rhs', 'path')
 
 
 def replay_obj(g, fi, it, what):
     f = g['fields'][fi]
-    return {'kind': 'group', 'engine': g['engine'], 'header': g['header'], 'anns': [x['ann'] for x in g['fields']], 'index': fi,
+    return {'kind': 'group', 'engine': g['engine'], 'header': g['header'], 'anns': [x['ann'] for x in g['fields']],
+            'decls': [{'rhs': x['rhs'], 'path': x['path']} for x in g['fields']], 'index': fi,
             'field': {k: f.get(k) for k in FKEYS}, 'input': it['inp'], 'meta': it['meta'], 'what': what}
 
 
@@ -1239,6 +1283,7 @@ def run(ctx):
         region61 = f61_fields(g)
         for fi, (f, fres) in enumerate(zip(g['fields'], gres)):
             ctx.hist('engine/style', '%s/%s' % (f['engine'], f['style']))
+            ctx.hist('declaration_feature', '%s/%s' % (f['engine'], f['feat']))
             kinds = sorted({l[1] for l in leaves_of(f['tree'])})
             ctx.hist('leaf_kinds', '+'.join(kinds))
             ctx.hist('variant', ('tz ' if f['tz'] else '') + ('%d patterns' % len(f['patterns'])))
@@ -1328,15 +1373,17 @@ def replay(ctx, obj, quiet=False):
         print('replay object names a broken tie, not an input: %s' % json.dumps(obj)[:1500])
         return False
     i = obj['index']
-    fields = [{'ann': a, 'inputs': [obj['input']] if j == i else []} for j, a in enumerate(obj['anns'])]
+    decls = obj.get('decls') or [{'rhs': 'None', 'path': None}] * len(obj['anns'])
+    fields = [{'ann': a, 'rhs': d['rhs'], 'path': d['path'], 'inputs': [obj['input']] if j == i else []}
+              for j, (a, d) in enumerate(zip(obj['anns'], decls))]
     res = ctx.impl('c17', {'groups': [{'engine': obj['engine'], 'header': obj['header'], 'fields': fields}]})['groups'][0][i][0]
     f = obj['field']
     bad = check_input(None, f, {'inp': obj['input'], 'meta': obj['meta']}, res)
     if not quiet:
         print(obj['header'])
         print('@dataclass\nclass C:')
-        for j, a in enumerate(obj['anns']):
-            print('    f%d: %s = None' % (j, a))
+        for j, (a, d) in enumerate(zip(obj['anns'], decls)):
+            print('    f%d: %s = %s' % (j, a, d['rhs']))
         print('engine %s   field f%d   input %s' % (obj['engine'], i, json.dumps(obj['input'])))
         print('recorded failure:', obj.get('what'))
         print('observed now    :', json.dumps(res)[:1500])
